@@ -2,11 +2,11 @@
 
 from __future__ import annotations
 
-from operator import getitem
 from typing import TYPE_CHECKING
 from typing import Any
 from typing import Iterable
 
+from liquid2.utils.getitem import getitem
 from liquid2.builtin import LambdaExpression
 from liquid2.builtin import Null
 from liquid2.builtin import Path
